@@ -444,10 +444,16 @@ func TestVerifChanCorr(t *testing.T) {
 				if to > maxMsg {
 					to = maxMsg
 				}
+				t0 := time.Now().UnixNano()
 				err := c.StartInFlightTimeout(msg, client, to)
 				now := msg.pri - int64(to)
 				if err == nil {
 					live[id] = msg
+					// direct oracle: the deadline is never before delivery + timeout
+					if msg.pri < msg.deliveryTS.UnixNano()+int64(to) || msg.pri < t0+int64(to) {
+						fail(fmt.Sprintf("EARLY-DEADLINE: in-flight deadline %d is before deliveryTS+timeout = %d (msg %d, timeout %d)",
+							msg.pri, msg.deliveryTS.UnixNano()+int64(to), id, int64(to)))
+					}
 				}
 				out.Case(fmt.Sprintf("ch inflight %d %d %d %d", now, id, client, int64(to)),
 					vfE1ResName(err)+" "+vfE1ChanDump(c, vfE1Drain(c)))
@@ -498,6 +504,9 @@ func TestVerifChanCorr(t *testing.T) {
 						now = msg.pri - int64(mt)
 						hist["touch:plain"]++
 					}
+					if lo := vfE1Min64(t0+int64(mt), dts+int64(maxMsg)); msg.pri < lo {
+						fail(fmt.Sprintf("EARLY-DEADLINE: TOUCH at >= %d set deadline %d, before min(now+msgTimeout, deliveryTS+MaxMsgTimeout) = %d (msg %d)", t0, msg.pri, lo, id))
+					}
 					if msg.pri > dts+int64(maxMsg) {
 						fail(fmt.Sprintf("TOUCH set deadline %d beyond deliveryTS+MaxMsgTimeout = %d (msg %d, msgTimeout %d)", msg.pri, dts+int64(maxMsg), id, int64(mt)))
 					}
@@ -540,6 +549,9 @@ func TestVerifChanCorr(t *testing.T) {
 					c.deferredMutex.Lock()
 					if it, ok := c.deferredMessages[vfE1MsgID(id)]; ok {
 						now = it.Priority - int64(d)
+						if it.Priority < t0+int64(d) {
+							fail(fmt.Sprintf("EARLY-DEADLINE: REQ with delay %d at >= %d parked until %d only", int64(d), t0, it.Priority))
+						}
 					}
 					c.deferredMutex.Unlock()
 				}
@@ -568,6 +580,9 @@ func TestVerifChanCorr(t *testing.T) {
 					c.deferredMutex.Lock()
 					now = c.deferredMessages[vfE1MsgID(id)].Priority - int64(d)
 					c.deferredMutex.Unlock()
+					if now < t0 {
+						fail(fmt.Sprintf("EARLY-DEADLINE: deferred by %d at >= %d parked until %d only", int64(d), t0, now+int64(d)))
+					}
 				}
 				out.Case(fmt.Sprintf("ch defer %d %d %d", now, id, int64(d)), vfE1ResName(err)+" "+vfE1ChanDump(c, vfE1Drain(c)))
 				hist["defer:"+vfE1ResName(err)]++
@@ -655,6 +670,13 @@ func TestVerifChanCorr(t *testing.T) {
 		}
 	}
 	fmt.Printf("CHAN-HIST episodes=%d %v\n", episodes, hist)
+}
+
+func vfE1Min64(a, b int64) int64 {
+	if a < b {
+		return a
+	}
+	return b
 }
 
 func vfE1Min(a, b int) int {
@@ -898,4 +920,89 @@ func TestVerifWallClock(t *testing.T) {
 		}
 	}
 	fmt.Printf("WALL-OK scenarios=%d worst-lateness=%v beyond-bound=%d bound=%v\n", n, worstLate, lateCount, bound)
+}
+
+
+// TestVerifTouchTCP: TOUCH over a real connection restarts the timeout with the msg_timeout the
+// client NEGOTIATED (not a daemon default), capped at deliveryTS + max-msg-timeout. The deadline
+// is read white-box; the bounds are clock readings taken around the command.
+func TestVerifTouchTCP(t *testing.T) {
+	opts := NewOptions()
+	opts.Logger = nil
+	opts.LogLevel = LOG_FATAL
+	opts.DataPath = t.TempDir()
+	opts.QueueScanInterval = time.Hour
+	opts.QueueScanRefreshInterval = time.Hour
+	opts.MsgTimeout = 61 * time.Second
+	opts.MaxMsgTimeout = 17 * time.Minute
+	opts.MaxReqTimeout = 47 * time.Minute
+	tcpAddr, _, nsqd := mustStartNSQD(opts)
+	defer nsqd.Exit()
+	r := vfNewRand(73)
+	n := vfEnvInt("VERIF_N", 20)
+	okCount := 0
+	for i := 0; i < n; i++ {
+		mtMs := []int{1000, 1001, 5000, 60000, 61000, 300000, 1020000}[r.Intn(7)]
+		topicName := fmt.Sprintf("vf_touch_%d", i)
+		topic := nsqd.GetTopic(topicName)
+		ch := topic.GetChannel("ch")
+		conn, err := mustConnectNSQD(tcpAddr)
+		if err != nil {
+			t.Fatal(err)
+		}
+		conn.SetDeadline(time.Now().Add(10 * time.Second))
+		identify(t, conn, map[string]interface{}{"msg_timeout": mtMs}, frameTypeResponse)
+		sub(t, conn, topicName, "ch")
+		nsq.Ready(1).WriteTo(conn)
+		topic.PutMessage(NewMessage(topic.GenerateID(), []byte("touch")))
+		resp, err := nsq.ReadResponse(conn)
+		if err != nil {
+			t.Fatal(err)
+		}
+		_, data, _ := nsq.UnpackResponse(resp)
+		m, err := nsq.DecodeMessage(data)
+		if err != nil {
+			t.Fatal(err)
+		}
+		var id MessageID
+		copy(id[:], m.ID[:])
+		ch.inFlightMutex.Lock()
+		msg := ch.inFlightMessages[id]
+		first := msg.pri
+		dts := msg.deliveryTS.UnixNano()
+		ch.inFlightMutex.Unlock()
+		mt := int64(mtMs) * int64(time.Millisecond)
+		if first != dts+mt {
+			fmt.Printf("ORACLE-FAIL first delivery deadline %d is not deliveryTS + negotiated msg_timeout %dms = %d\n", first, mtMs, dts+mt)
+			t.Fail()
+		}
+		time.Sleep(time.Duration(1+r.Intn(5)) * time.Millisecond)
+		t0 := time.Now().UnixNano()
+		nsq.Touch(m.ID).WriteTo(conn)
+		// wait until the deadline moved (TOUCH has no response)
+		var pri int64
+		for k := 0; k < 2000; k++ {
+			ch.inFlightMutex.Lock()
+			if mm, ok := ch.inFlightMessages[id]; ok {
+				pri = mm.pri
+			}
+			ch.inFlightMutex.Unlock()
+			if pri != first && pri != 0 {
+				break
+			}
+			time.Sleep(100 * time.Microsecond)
+		}
+		t1 := time.Now().UnixNano()
+		capAt := dts + int64(opts.MaxMsgTimeout)
+		lo, hi := vfE1Min64(t0+mt, capAt), vfE1Min64(t1+mt, capAt)
+		if pri < lo || pri > hi {
+			fmt.Printf("ORACLE-FAIL TOUCH over TCP with negotiated msg_timeout %dms: new deadline %d is outside [%d, %d] (= min(now + msg_timeout, deliveryTS + max-msg-timeout)); it is now+%dms\n",
+				mtMs, pri, lo, hi, (pri-t0)/1000000)
+			t.Fail()
+		} else {
+			okCount++
+		}
+		conn.Close()
+	}
+	fmt.Printf("TOUCHTCP-OK cases=%d\n", okCount)
 }
